@@ -46,7 +46,7 @@ What to produce, all inside your worktree:
    a maintainer could plausibly have written (a refactor, an optimisation, a hardening, a clean-up, a 'fix'), not sabotage, and be
    small (typically 1-25 changed lines, possibly at two cooperating sites that each look fine alone).
 2. `seeded_demo_test.go` (package simdjson, in the worktree root) with a single test `TestSeededDemo` that FAILS with your change
-   and PASSES without it (check both: `go test -vet=off -count=1 -run '^TestSeededDemo$' .`, then `git stash`-free: save your diff with
+   and PASSES without it (check both: `go test -vet=off -count=1 -run '^TestSeededDemo$' .`, then WITHOUT git stash (never use git stash: it is shared between worktrees and other agents work in parallel) - save your diff with
    `git diff -- . ':!seeded_demo_test.go' ':!SEEDED.md' ':!seeded.patch' > seeded.patch`, `git apply -R seeded.patch`, run the demo,
    `git apply seeded.patch` again). The demonstration must show a violation of the property as stated (not of some other expectation).
 3. `seeded.patch` as produced by the command above (your final state must have the change applied).
@@ -79,7 +79,7 @@ What to produce, all inside your worktree:
    a refactor, a retuned constant, a different but equally correct algorithm, a restructured loop, a different buffer growth policy,
    an extra (correct) validation, a renamed/rewrapped internal error, splitting or merging functions, pooling or un-pooling a buffer
    correctly. 10-80 changed lines. It must NOT change anything the property (or the library's documentation) promises.
-2. `seeded.patch`: `git diff -- . ':!seeded_demo_test.go' ':!SEEDED.md' ':!seeded.patch' > seeded.patch` (final state has the change applied).
+2. (Never use git stash: it is shared between worktrees and other agents work in parallel; to test without your change use `git apply -R seeded.patch` and `git apply seeded.patch`.) `seeded.patch`: `git diff -- . ':!seeded_demo_test.go' ':!SEEDED.md' ':!seeded.patch' > seeded.patch` (final state has the change applied).
 3. `SEEDED.md`: what you changed, and your argument why the property still holds for every input/schedule/history (be rigorous: think about
    boundaries, reuse of objects, error paths, concurrency). Also list what observable-but-unpromised details changed (e.g. error text,
    capacity of returned slices, number of goroutines, internal channel capacity, order of unrelated side effects).
